@@ -23,7 +23,7 @@ from concurrent.futures import ThreadPoolExecutor
 
 sys.path.insert(0, os.path.dirname(os.path.dirname(os.path.abspath(__file__))))
 
-from harness import checklib, explore, tlc  # noqa: E402
+from harness import checklib, detsched, explore, tlc  # noqa: E402
 
 DEB = "checks.scen_tricks:deb_program"
 AR = "checks.scen_tricks:ar_program"
@@ -131,9 +131,51 @@ def sh_programs(thorough):
 # ----------------------------------------------------------------------------- exploration plumbing
 
 
+RUNAWAY_MAX = 6
+
+
+def _dfs_job(args):
+    """harness.explore._dfs_job with one more rule: an execution that ran into the scheduler's step limit (a run-away
+    loop in the code under test) is recorded but not expanded, and after a few of them the job gives up -- otherwise
+    a run-away mutant would make every one of thousands of executions last thousands of steps."""
+    scenario, params, bound, stack0, max_execs = args
+    uniq, bad = {}, []
+    count = [0, 0]
+
+    def run_one(prefix):
+        st = detsched.PrefixStrategy(prefix)
+        rec, _s = explore.execute(scenario, params, st)
+        rec["choices"] = [r[2] for r in st.record]
+        if rec["extra"].get("steplimit") or rec["outcome"] == "steplimit":
+            count[1] += 1
+            return st.record[: len(prefix)], rec
+        return st.record, rec
+
+    def on_result(prefix, record, rec):
+        count[0] += 1
+        if rec["outcome"] in ("error", "divergence"):
+            bad.append(rec)
+            return
+        k = explore._key(rec)
+        if k in uniq:
+            uniq[k]["n"] += 1
+        else:
+            rec["n"] = 1
+            uniq[k] = rec
+
+    stack = [list(p) for p in stack0]
+    while stack and (max_execs is None or count[0] < max_execs) and count[1] < RUNAWAY_MAX and not bad:
+        step = 10 if max_execs is None else min(10, max_execs - count[0])
+        left = []
+        detsched.dfs_explore(run_one, bound, stack0=stack, on_result=on_result, max_execs=step, leftover=left)
+        stack = left
+    leftover = stack if count[1] < RUNAWAY_MAX else []
+    return count[0], list(uniq.values()), bad[:3], leftover
+
+
 def _dfs_capped(args):
     scen, params, bound, cap = args
-    n, recs, bad, left = explore._dfs_job((scen, params, bound, [[]], cap))
+    n, recs, bad, left = _dfs_job((scen, params, bound, [[]], cap))
     return n, recs, bad, len(left)
 
 
@@ -141,7 +183,7 @@ def _dfs_all(programs, jobs, chunk=200, cap=None, budget=None):
     """Bounded-preemption DFS over many programs on ONE process pool.  Returns [(executions, unique records,
     complete?)] per program.
     cap = None: a job explores at most `chunk` executions of its sub-trees of one program and hands the unexplored
-    stack entries back (harness.explore._dfs_job), so that big and small programs share the workers evenly.
+    stack entries back, so that big and small programs share the workers evenly.
     cap = n: every program is explored by one worker, depth first, for at most n executions (deterministic prefix of
     the enumeration; the programs that were cut short are counted).
     budget = n (with cap = None): a program whose executions exceed n is not expanded further (time limit guard)."""
@@ -161,7 +203,7 @@ def _dfs_all(programs, jobs, chunk=200, cap=None, budget=None):
                     whole[i] = False
                     continue
                 scen, params, bound = programs[i]
-                pending.append((i, pool.apply_async(explore._dfs_job, ((scen, params, bound, st, chunk),))))
+                pending.append((i, pool.apply_async(_dfs_job, ((scen, params, bound, st, chunk),))))
             done = [x for x in pending if x[1].ready()]
             if not done:
                 pending[0][1].wait(0.02)
@@ -339,6 +381,20 @@ def run(c: checklib.Check):
             c.violation(clause, what, rp, signature=sig)
     if nviol:
         c.note("failing clauses by signature: " + ", ".join(f"{k} x{n}" for k, n in sorted(nviol.items())))
+
+    # the defects TLC finds in the models of the code as it is (negative configurations), against the real code
+    seen = {}
+    for sig, n in nviol.items():
+        base = sig.split(":", 1)[1] if sig.startswith("D8:") else sig.split("@")[0]
+        seen[base] = seen.get(base, 0) + n
+    pairs = [("Debouncer[FixD8=FALSE] C18_DeliveredWhenQuiet", "P_C18_DeliveredWhenQuiet"),
+             ("Debouncer[FixD8=FALSE] C18_ThreadExits", "P_C18_ThreadExits"),
+             ("AutoRestart[FixLock=FALSE] C18_AtMostOneChild", "P_C18_AtMostOneChild"),
+             ("AutoRestart[FixLock=FALSE] C18_NothingAfterStop/C18_NoSpawnAfterStop", "P_C18_NothingAfterStop"),
+             ("AutoRestart[FixLock=FALSE] C18_HelpersGone", "P_C18_HelpersGone")]
+    c.note("model of the code as it is (refuted by TLC) vs the real code under the scheduler: " +
+           "; ".join(f"{m} -> {q} fails on {seen.get(q, 0)} real traces" for m, q in pairs) +
+           " (0 everywhere = the tree under test carries the repairs)")
 
     design_future.result()
     bg.shutdown()
